@@ -223,6 +223,11 @@ impl<W: Write> Trace<W> {
 
     /// Executes an action and records it (if it was enabled).
     pub fn step(&mut self, sim: &mut Sim, ev: &str, args: Value) -> bool {
+        // with TickPolicy::EveryFrame the server itself decides: a frame ticks iff the server is running
+        let mut args = args;
+        if ev == "SrvFrame" && sim.cfg.every_frame {
+            args["tick"] = json!(sim.project_server()["running"] == json!(true));
+        }
         match exec(sim, ev, &args) {
             Ok(()) => {
                 self.write(sim, ev, &args);
@@ -401,6 +406,12 @@ pub fn random_run<W: Write>(tr: &mut Trace<W>, cfg: Cfg, prof: &Profile, seed: u
     // some runs of the event profiles: a long quiet stretch early on, so that clients that (re)connect or are
     // authorized later hold update ticks of a different magnitude (>= 128: two-byte varint) than the others
     let long_at = if prof.events && rng.chance(1, 5) { Some(3 + rng.below(6)) } else { None };
+    // some runs of the other profiles start late: ticks of two varint bytes in every message
+    if !prof.events && !prof.pre && rng.chance(1, 10) {
+        for _ in 0..130 {
+            tr.step(&mut sim, "SrvFrame", json!({"tick": true, "dt": 0}));
+        }
+    }
     for step_no in 0..prof.steps {
         if long_at == Some(step_no) {
             if sim.op_enabled("Spawn", &json!({"e": ents[0]})) {
